@@ -329,7 +329,7 @@ class ListStructProfiler(BaseProfiler):
 class DefaultProfiler(BaseProfiler):
     def __call__(self, column_data: List[Any]):
         self.profile.count = len(column_data)
-        self.profile.missing = sum(1 for val in column_data if val != val)
+        self.profile.missing = sum(1 for val in column_data if val is None or val != val)
 
 
 class BooleanProfiler(BaseProfiler):
